@@ -93,6 +93,9 @@ type ProviderSpec struct {
 type Return struct {
 	Type        types.Type
 	ASTTypeExpr ast.Expr
+	// ReferencedImports are the imports the copied type expression mentions (also outside type names,
+	// e.g. the constant in [pkg.N]int).
+	ReferencedImports map[string]*Import
 }
 
 // BuildDirective represents a kessoku.Inject call.
